@@ -775,7 +775,7 @@ struct TGen {
 
 impl TGen {
     fn name(&mut self, r: &mut Rng) -> String {
-        let base = ["t0", "T1", "Orders", "s.t3", "a.b.T4", "v_x", "u"];
+        let base = ["t0", "T1", "Orders", "s.t3", "S2.T4", "v_x", "u"];
         let n = r.pick(&base).to_string();
         self.names.push(n.clone());
         n
@@ -1126,6 +1126,7 @@ fn main() {
     let mut model = args.model();
     let mut rng = Rng::new(args.seed);
 
+    let t_start = std::time::Instant::now();
     // ---- 1. deterministic probes
     sig_probes(&mut model, &mut rep);
     let t0 = |s: &str| Q { text: s.to_string(), named: vec!["T0".into()] };
@@ -1208,6 +1209,7 @@ fn main() {
         c.model_check(&mut model, &mut rep, "qualified-name probe");
     }
 
+    eprintln!("[c25] probes done {:?}", t_start.elapsed());
     // ---- 2. signature pairs
     let n_pairs = args.n(1500, 60000);
     for i in 0..n_pairs {
@@ -1230,6 +1232,7 @@ fn main() {
         }
     }
 
+    eprintln!("[c25] pairs done {:?}", t_start.elapsed());
     // ---- 3. table extraction
     let n_tab = args.n(600, 20000);
     for i in 0..n_tab {
@@ -1253,14 +1256,16 @@ fn main() {
         }
     }
 
+    eprintln!("[c25] tables done {:?}", t_start.elapsed());
     // ---- 4. raw cache traces
     for _ in 0..args.n(400, 10000) {
         let mut r = rng.fork();
         raw_trace(&mut r, &mut model, &mut rep);
     }
 
+    eprintln!("[c25] raw traces done {:?}", t_start.elapsed());
     // ---- 5. histories
-    let n_hist = args.n(260, 6000);
+    let n_hist = args.n(200, 6000);
     for i in 0..n_hist {
         // three of four histories stay inside the premise of the property (writes announced for
         // the table they change, base tables only); the others add views / cascades / rollbacks / DDL
@@ -1283,5 +1288,6 @@ fn main() {
             rep.sample(serde_json::json!({"kind": "history", "class": class, "length": len}));
         }
     }
+    eprintln!("[c25] histories done {:?}", t_start.elapsed());
     std::process::exit(rep.finish());
 }
